@@ -790,7 +790,7 @@ def run_invalid(name, fn, ctx):
 
 def gen(ctx):
     rng = ctx.rng('gen')
-    n = 500 if ctx.tier == 'quick' else 70000
+    n = 1200 if ctx.tier == 'quick' else 70000
     for k in range(n):
         yield {'spec': gen_spec(rng), 'start_after_finalize': k % 2 == 0}
 
